@@ -426,7 +426,10 @@ theorem updateState_j {s s' : St} {m : UpdMsg} (hi : Inv s) (e : updateState s m
                         intro a ha
                         show m.start = a.start + a.num
                         exact updPre_start hpre a ha))
-                    have hja := appendState_J (new := newSInfo s m (updSucc r m)) hg hi.j
+                    have hsend : SeqOf s m.sender m.ra := by
+                      have h0 := (hi.j.prop m.ra r hg).1 m.sender hpr
+                      rw [hid] at h0; exact h0
+                    have hja := appendState_J (new := newSInfo s m (updSucc r m)) hg hi.j hsend
                     obtain ⟨hj3, hw3⟩ := seqAfterUpdate_facts hca hja h3
                     -- the sender is a sequencer of the rollapp, still so in s3
                     have hso : SeqOf s3 m.sender m.ra := by
@@ -460,6 +463,8 @@ theorem updateState_j {s s' : St} {m : UpdMsg} (hi : Inv s) (e : updateState s m
                           refine ⟨m.ra, r3, r.states.length, st', hso.congr rfl, hg3, hk1, hf.1, hf.2.2.2.1, ?_, ?_⟩
                           · show st'.start ≤ b.height; rw [hf.2.1]; exact hbr.1
                           · show b.height ≤ st'.last; rw [eraseNext_last hk2]; exact hbr.2
+                      · intro id r' hg' x hx
+                        exact (hj3.creators id r' hg' x hx).congr rfl
                     refine Good.J ?_ hj4
                     exact indicateLiveness_good (id := m.ra) hg3
 
@@ -594,10 +599,11 @@ theorem step_inv {s : St} {o : Op} (hi : Inv s) : Inv (step s o).1 := by
 theorem run_inv (p : Params) (ops : List Op) : Inv (run p ops) := by
   unfold run
   apply foldl_inv Inv
-  · refine ⟨?_, ⟨List.Pairwise.nil, rfl⟩, ⟨?_, ?_⟩⟩
+  · refine ⟨?_, ⟨List.Pairwise.nil, rfl⟩, ⟨?_, ?_, ?_⟩⟩
     · intro r hr; simp [init] at hr
     · intro id r hg; simp [getRa, init] at hg
     · intro p hp; simp [init] at hp
+    · intro id r hg; simp [getRa, init] at hg
   · intro b o hb; exact step_inv hb
 
 end DymVerif.Core
